@@ -362,20 +362,21 @@ def replay(ctx, rp):
     print('property holds on this case'); return 0
 
 
-def finding_key(case, out=''):
+def finding_key(case, why=''):
     """key of a reported-but-not-yet-fixed momo defect this failing case is an instance of (for known_findings.txt), else None.
-    (The two index+count overflow keys of round 3 were dropped when /repo commit bcbf078 fixed them: no open findings.)"""
+    No open findings: the overflow keys (round 3) and the stale-selection keys (round 4) were dropped when /repo commits
+    bcbf078 and f5d4e4e fixed them."""
     return None
 
 
 def report(ctx, bad, harness):
     """bad: [(case, output, why)] -> violations: unknown failures first (up to 3), then one per known-defect key"""
-    unknown = [b for b in bad if finding_key(b[0]) is None]
+    unknown = [b for b in bad if finding_key(b[0], b[2]) is None]
     for (c, o, why) in unknown[:3]:
         ctx.violation(why, {'case': c, 'impl_output': o, 'harness': harness, 'cmd': 'echo "%s" | build/C15/%s' % (c, harness)}, found_input=True)
     seen = set()
     for (c, o, why) in bad:
-        k = finding_key(c)
+        k = finding_key(c, why)
         if k is not None and k not in seen:
             seen.add(k)
             ctx.violation(why, {'case': c, 'impl_output': o, 'harness': harness, 'cmd': 'echo "%s" | build/C15/%s' % (c, harness)}, found_input=True, key=k)
@@ -461,7 +462,7 @@ def run(ctx):
                 if 'rej=' in o and not o.endswith('rej=0'):
                     ctx.nontrivial.add(c)
             ctx.coverage['other_containers'] = {'cases': len(c2), 'by_kind': {k: sum(1 for c in c2 if c.startswith(k)) for k in ('mm', 'ar', 'sa', 'dt')}}
-            bad2.sort(key=lambda b: finding_key(b[0]) is not None)
+            bad2.sort(key=lambda b: finding_key(b[0], b[2]) is not None)
             ctx.stage('oracle2', not bad2 and rc == 0, (bad2[0][1] + ' :: ' + bad2[0][0][:300]) if bad2 else err[-300:])
             report(ctx, bad2, 'harness2')
     # ---- third harness: histories on HashMultiMap / arrays / DataTable against the extracted models MultiMap.v, Arr.v, Table.v
@@ -481,7 +482,14 @@ def run(ctx):
                 mism3, _ = ctx.correspond('model-vs-multimap-arrays-table', keep, [h3], [ctx.model_exe])
                 ctx.tie_obligations.append({'name': 'extracted MultiMap.v / Arr.v / Table.v == real HashMultiMap / Array / SegmentedArray / DataTable (every call outcome, both version cells, contents) on %d histories' % len(keep),
                                             'ok': not mism3})
-                report(ctx, [(c, a, 'model and implementation disagree: impl=%s model=%s' % (a[-200:], b[-200:])) for (i, c, a, b) in mism3], 'harness3')
+                def first_diff(c, a, b):
+                    ops = c.split()[1:]; ta = a.split(' | ')[0].split(); tb = b.split(' | ')[0].split()
+                    for o, x, y in zip(ops, ta, tb):
+                        if x != y:
+                            return o.split(',')[0]
+                    return 'final-state'
+                report(ctx, [(c, a, 'model and implementation disagree (first differing call: %s): impl=%s model=%s' % (first_diff(c, a, b), a[-200:], b[-200:]))
+                             for (i, c, a, b) in mism3], 'harness3')
             rc, l3, err = run_harness(ctx, h3, c3, 'oracle3')
             ctx.evaluations += len(c3)
             bad3 = [(c, o, oracle3_case(c, o)[0]) for c, o in zip(c3, l3) if oracle3_case(c, o)]
@@ -489,7 +497,7 @@ def run(ctx):
                 tk = o.split(' | ')[0].split()
                 if 'R' in tk and any(x.startswith('A') for x in tk):
                     ctx.nontrivial.add(c)
-            bad3.sort(key=lambda b: finding_key(b[0]) is not None)
+            bad3.sort(key=lambda b: finding_key(b[0], b[2]) is not None)
             ctx.stage('oracle3', not bad3 and rc == 0, (bad3[0][2] + ' :: ' + bad3[0][0][:300]) if bad3 else err[-300:])
             report(ctx, bad3, 'harness3')
     for c in cases[::max(1, len(cases) // 6)][:6]:
